@@ -216,6 +216,43 @@ def r1(ctx):
         reached = prog.reach([f.id])
         ok = any(prog.fns[r].name == "check_rewriters_in_transform" for r in reached if r in prog.fns)
         ctx.ob("R1", "register_rewriters reaches check_rewriters_in_transform", ok, "rewriter references in transforms are checked", where=f.loc())
+    # …and that check looks at the rule AND at every registered rewriter (a rewriter's own transform may name a rewriter too; at run
+    # time a missing rewriter is skipped silently), not only at those the rule happens to name
+    crt0 = ctx.anchor("R1", r"^ast_grep_config::check_var::check_rewriters_in_transform$")
+    if crt0:
+        from ..query import iter_chain, closure_consumer, DROPPING_ITER
+        crt = prog.inlined(crt0, keep=("check_one_rewriter_in_rule",))
+        fam = prog.family(crt)
+        per_rule = [(g, c) for g in fam for c in g.calls if c.name == "check_one_rewriter_in_rule" and c.bb in g.live_blocks]
+        on_rule = on_all = False
+        dropped = []
+        for g, c in per_rule:
+            if g is crt and any(o.kind == "param" and o.ref == 1 for o in deep_roots(prog, crt, c.args[0], TRANSPARENT)):
+                on_rule = True
+            recv = None
+            if g is not crt:
+                cons = closure_consumer(prog, g)
+                if cons and cons[0].id == crt.id and cons[1].args:
+                    recv, host = cons[1].args[0], cons[0]
+            elif crt.in_loop(c.bb):
+                recv, host = c.args[0], crt
+            if recv is not None:
+                ad, lv = iter_chain(prog, host, recv)
+                def whole_map(lf, o):
+                    if lf.id != crt.id:
+                        return False
+                    if o.kind == "param" and o.ref == 2:
+                        return True
+                    return o.kind == "call" and o.ref.name in ("values", "iter", "into_iter", "values_mut", "iter_mut") and o.ref.args and \
+                        any(r.kind == "param" and r.ref == 2 for r in deep_roots(prog, lf, o.ref.args[0], TRANSPARENT))
+                if any(whole_map(lf, o) for lf, o in lv):
+                    on_all = True
+                    dropped += [a.name for _, a in ad if a.name in DROPPING_ITER]
+        ctx.ob("R1", "check_rewriters_in_transform/the rule itself is checked", on_rule, "check_one_rewriter_in_rule(rule, rewriters)", where=crt0.loc())
+        ctx.ob("R1", "check_rewriters_in_transform/every registered rewriter is checked", on_all and not dropped,
+               "check_one_rewriter_in_rule runs over an iteration of the whole `rewriters` map" if on_all and not dropped else
+               "the per-rewriter check does not run over every value of the `rewriters` map (%s): a rewriter that names an undefined rewriter is accepted unless the rule's own transform "
+               "names it directly, and the dangling reference is skipped silently at run time" % ("iteration passes through %s" % dropped if dropped else "no iteration over the map reaches it"), where=crt0.loc())
     # RuleConfig kind test
     tf = ctx.anchor("R1", r"^ast_grep_config::rule_config::RuleConfig::<L>::try_from$")
     if tf:
